@@ -1,5 +1,5 @@
 (* C10 - Retries: at most r+1 attempts, only after timeouts, same result. *)
-From GD Require Import Base.Prelude Model.Strings Model.Buffer Model.Net Model.Valve Proofs.Retry.
+From GD Require Import Base.Prelude Model.Strings Model.Buffer Model.Net Model.Valve Model.Quake Proofs.Retry.
 
 (* the helper against its abstract description, for every attempt function,
    every state and every retry count *)
@@ -30,6 +30,25 @@ Theorem c10_valve_unit_retried : forall bz port retries e protocol kind,
   = retry_on_timeout retries (get_request_data_impl bz port e protocol kind (default_payload kind)).
 Proof. reflexivity. Qed.
 Print Assumptions c10_valve_unit_retried.
+
+(* Quake: the whole exchange (request + reply) is the retried unit *)
+Theorem c10_quake_unit_retried : forall port v t,
+  Quake.client_query port v t
+  = (do* _ := udp_new port t in
+     do* data := retry_on_timeout (ts_retries_or_default t) (get_data_impl port v) in
+     mlift (fst ((let* vars := get_server_values in
+                  let* players := get_players (S (length data)) v [] in
+                  let '(name, vars) := take_var (str "hostname") (str "sv_hostname") vars in
+                  let* name := lift (need name) in
+                  let '(map, vars) := take_var (str "mapname") (str "map") vars in
+                  let* map := lift (need map) in
+                  let '(maxc, vars) := take_var (str "maxclients") (str "sv_maxclients") vars in
+                  let* maxc := lift (need maxc) in
+                  let* maxn := lift (parse_u 255 maxc) in
+                  let '(version, vars) := take_var (str "version") (str "*version") vars in
+                  ret (mk_qresp name map players (lenN players mod 256) maxn version vars)) (buf_new data)))).
+Proof. reflexivity. Qed.
+Print Assumptions c10_quake_unit_retried.
 
 Example c10_ex : (* two timeouts then a reply, r = 2 *)
   let att : M N := fun n => match n_udp n with
